@@ -63,6 +63,18 @@ def case_strategy(draw, big=False):
     else:
         case = draw(gen.antenna(env_kinds=('free', 'ideal'), max_wires=4, max_seg=8 if not big else 14, nsrc=(1, 1),
                                 taper_prob=0.15, thick=thick, star=1, min_seg=3))
+    # the identity holds for every geometry: an elevated structure may hang very low over the ground plane (a radial
+    # a few centimetres up), down to a few thousandths of a segment
+    if case['env']['kind'] != 'free' and not case['xforms'] and all(o['type'] == 'wire' for o in case['objs']) and draw(st.integers(0, 3)) == 0:
+        zs = [o[e][2] for o in case['objs'] for e in ('p1', 'p2')]
+        zmin = min(zs)
+        if zmin > 0:
+            segmin = min(float(np.linalg.norm(np.array(o['p2']) - np.array(o['p1']))) / o['n'] for o in case['objs'])
+            newz = segmin * draw(st.sampled_from([3e-3, 1e-2, 0.05, 0.3]))
+            for o in case['objs']:
+                for e in ('p1', 'p2'):
+                    o[e] = [o[e][0], o[e][1], float(o[e][2] - zmin + newz)]
+            case['low'] = True
     case['pairseed'] = draw(st.integers(0, 2 ** 30))
     return case
 
@@ -72,10 +84,12 @@ def strategy(tier):
 
 
 def check(case):
-    why = rules.check(case, check_seg=False)
+    why = rules.check(case, check_seg=False, clearance=0.0 if case.get('low') else 1.0)
     if why:
         return Result(skipped=why)
     labels = common.base_labels(case)
+    if case.get('low'):
+        labels.append('low-over-ground')
     try:
         m = build.model(case)
     except build.Rejected as e:
